@@ -554,7 +554,21 @@ def _same_floor_div(a, b):
     return [n.s(x) for x in fa] == [n.s(x) for x in fb]
 
 
-SEMANTIC = {"search_range": _same_search_range, "inside_growth": _same_inside_growth_table, "floor_div": _same_floor_div}
+def _same_slot_search(a, b):
+    """Both sides search the same slots in the same order and map the found slot to the same tick (rules.ranges.search_model), in
+    both directions; each side's own initialised-test is decided by C13 / C10."""
+    from rules.ranges import search_model
+    for ab in (True, False):
+        ma, _ = search_model(a.facts, a, ab)
+        mb, _ = search_model(b.facts, b, ab)
+        if ma is None or mb is None:
+            return False
+        if any(ma[k] != mb[k] for k in ("first", "dir", "stop", "guard", "result")):
+            return False
+    return True
+
+
+SEMANTIC = {"slot_search": _same_slot_search, "search_range": _same_search_range, "inside_growth": _same_inside_growth_table, "floor_div": _same_floor_div}
 
 
 def compare_pair(run, rule, a_path, b_path, keys=ALL, subs_b=(), exempt=(), subs_a=(), norm_a=None, norm_b=None, semantic=None):
